@@ -64,7 +64,7 @@ class A:
 
 
 SHAPES = ["lit", "litb", "litf", "lits", "ulit", "int", "str", "gen", "seq", "dinc", "td", "ann", "sub", "tv", "u2", "utv", "never", "any",
-          "annu", "annau"]
+          "annu", "annau", "gtv"]
 
 
 def mk(shape: str, x):
@@ -106,6 +106,8 @@ def mk(shape: str, x):
     if shape == "annau":  # an annotated union one of whose members is itself annotated
         return AnnotatedValue(MultiValuedValue([AnnotatedValue(TypedValue(int), [CustomCheckExtension(Gt(x))]), TypedValue(str)]),
                               [CustomCheckExtension(Gt(5))])
+    if shape == "gtv":  # list[T] | list[int]: a type variable nested inside a member, no bare type-variable member
+        return MultiValuedValue([GenericValue(list, [TypeVarValue(T)]), GenericValue(list, [TypedValue(int)]), KnownValue(None)])
     if shape == "never":
         return NO_RETURN_VALUE
     if shape == "any":
@@ -113,7 +115,7 @@ def mk(shape: str, x):
     raise AssertionError(shape)
 
 
-HAS_TV = {"tv", "utv"}
+HAS_TV = {"tv", "utv", "gtv"}
 
 
 def prepare(template, data):
@@ -150,6 +152,22 @@ def _canon(v: Value) -> Value:
     if isinstance(v, AnnotatedValue) and isinstance(v.value, MultiValuedValue):
         return unite_values(v)
     return v
+
+
+def _nodup(v: Value) -> bool:
+    """equal alternatives are merged: no two members of a union compare equal"""
+    if isinstance(v, MultiValuedValue):
+        vals = list(v.vals)
+        for i in range(len(vals)):
+            for j in range(i + 1, len(vals)):
+                try:
+                    if vals[i] == vals[j]:
+                        return False
+                except Exception:
+                    pass
+        if len(vals) == 1:
+            return False  # a one-member union is not collapsed
+    return True
 
 
 def _hash_ok(x: Value, y: Value) -> bool:
@@ -230,7 +248,7 @@ def h14_pair(x: int, y: int, tsel: int, osel: int, ow: int) -> bool:
             return fin(False)
     # members of the union are exactly the members of the operands
     # (the witness dimensions and the type-variable map are explored separately, not as a product)
-    if tsel == 0 and sa not in ("any", "tv", "utv") and sb not in ("any", "tv", "utv"):
+    if tsel == 0 and sa not in ("any", "tv", "utv", "gtv") and sb not in ("any", "tv", "utv", "gtv"):
         o = KnownValue(_witness(osel, ow))
         if _accepts(ab, o) != (_accepts(a, o) or _accepts(b, o)):
             return fin(False)
@@ -245,6 +263,10 @@ def h14_pair(x: int, y: int, tsel: int, osel: int, ow: int) -> bool:
         for w in sv.walk_values():
             if isinstance(w, TypeVarValue) and w.typevar is T:
                 return fin(False)
+        if not _nodup(sv):
+            return fin(False)
+    if not _nodup(ab) or not _nodup(ab.substitute_typevars(m)):
+        return fin(False)
     if not (ab.substitute_typevars(m) == unite_values(a.substitute_typevars(m), b.substitute_typevars(m))):
         return fin(False)
     return fin(True)
